@@ -37,6 +37,7 @@ CONSTANTS Cfg0,         \* [buses |-> <<[name, parallel, maxhist]..>>, handlers 
           WithErrors,   \* handlers may raise
           WithIdle,     \* drivers may call wait_until_idle
           WithSleep,    \* handlers may sleep for a (non-zero) time in addition to zero-time yields
+          WithStop,     \* drivers may call stop() / cancel a bus's background task
           TimeoutTypes, \* event types created with a handler timeout (a set; {} = no timeouts)
           KeepLog       \* keep the sequence of emitted lines (spec->code replay of simulated behaviours); FALSE when model checking
 
@@ -188,7 +189,7 @@ DispatchFx(b, e, ce, ch, cb, inside, E0, isNew, ty, lvl) ==
       backlog == Len(q[b]) + Cardinality({x \in Range(hist[b]) : Status(E3[x]) \in {"pending", "started"}})
       capRej == bounded /\ HardLimit > 0 /\ backlog >= HardLimit
       \* (6) _start(): a run loop task is created if the bus is not running
-      startRL == ~running[b]
+      startRL == ~running[b] /\ task[RL(b)].pc \in {"none", "dead"}
       T1 == IF ~capRej /\ startRL THEN [task EXCEPT ![RL(b)] = [T0 EXCEPT !.pc = "new", !.b = b, !.born = Born + 1]] ELSE task
       R1 == IF ~capRej THEN [running EXCEPT ![b] = TRUE] ELSE running
       shutRej == ~capRej /\ shut[b]
@@ -221,7 +222,7 @@ BusyOn(E, H, Q, b) == Q[b] # <<>> \/ \E x \in Range(H[b]) : Status(E[x]) \in {"p
 
 RLStart(b) ==   \* first step of the run-loop task: fresh context (fix: F6), first queue poll started
   /\ cur = NoTask /\ task[RL(b)].pc = "new" /\ FirstBorn(RL(b))
-  /\ task' = [task EXCEPT ![RL(b)].pc = "poll"]
+  /\ task' = [task EXCEPT ![RL(b)].pc = IF running[b] THEN "poll" ELSE "dead"]      \* `while self._is_running`
   /\ UNCHANGED <<nev, ev, q, unf, shut, hist, running, idle, semv, depth, lockq, nact, nx, cur, o>>
 
 RLTake(b) ==    \* the helper task's queue.get() -> get_nowait(): the event leaves the queue before any lock
@@ -230,8 +231,13 @@ RLTake(b) ==    \* the helper task's queue.get() -> get_nowait(): the event leav
   /\ q' = [q EXCEPT ![b] = Tail(@)]
   /\ UNCHANGED <<nev, ev, unf, shut, hist, running, idle, semv, depth, lockq, nact, nx, cur, o>>
 
+RLShutExit(b) ==  \* get() on an empty, shut-down queue raises QueueShutDown: _run_loop ends (fix: G3-spin)
+  /\ cur = NoTask /\ task[RL(b)].pc = "poll" /\ q[b] = <<>> /\ shut[b]
+  /\ task' = [task EXCEPT ![RL(b)].pc = "dead"]
+  /\ running' = [running EXCEPT ![b] = FALSE]
+  /\ UNCHANGED <<nev, ev, q, unf, shut, hist, idle, semv, depth, lockq, nact, nx, cur, o>>
 RLPollIdle(b) ==  \* 0.1 s poll timeout: idle flag set when nothing is queued / pending / started
-  /\ cur = NoTask /\ task[RL(b)].pc = "poll" /\ q[b] = <<>>
+  /\ cur = NoTask /\ task[RL(b)].pc = "poll" /\ q[b] = <<>> /\ ~shut[b]
   /\ ~idle[b] /\ ~BusyOn(ev, hist, q, b)
   /\ idle' = [idle EXCEPT ![b] = TRUE]
   /\ UNCHANGED <<nev, ev, q, unf, shut, hist, running, semv, depth, lockq, task, nact, nx, cur, o>>
@@ -272,7 +278,7 @@ OwnerAbort(t) ==
   /\ IF t[1] = "rl"
      THEN \* step()'s `async with` releases the lock, no task_done, the run loop logs the error and polls again (A.13)
           LET rel == IF depth - 1 = 0 THEN Release(task) ELSE [sem |-> semv, lq |-> lockq, T |-> task] IN
-          /\ task' = [rel.T EXCEPT ![t].pc = "poll", ![t].holds = (depth - 1 # 0), ![t].e = 0, ![t].fe = 0, ![t].fb = ""]
+          /\ task' = [rel.T EXCEPT ![t].pc = IF running[task[t].fb] THEN "poll" ELSE "dead", ![t].holds = (depth - 1 # 0), ![t].e = 0, ![t].fe = 0, ![t].fb = ""]
           /\ semv' = rel.sem /\ depth' = depth - 1 /\ lockq' = rel.lq
           /\ cur' = NoTask
      ELSE \* the RuntimeError propagates out of `await child` into the awaiting handler
@@ -280,8 +286,29 @@ OwnerAbort(t) ==
           /\ UNCHANGED <<semv, depth, lockq, cur>>
   /\ UNCHANGED <<nev, ev, q, unf, shut, hist, running, idle, nact, nx, o>>
 
+RLDrop(b) ==    \* stop() intervened between the queue hand-off and the run loop resuming: the taken event is dropped, the loop ends
+  /\ cur = NoTask /\ task[RL(b)].pc = "got" /\ ~running[b]
+  /\ task' = [task EXCEPT ![RL(b)].pc = "dead"]
+  /\ idle' = [idle EXCEPT ![b] = IF BusyOn(ev, hist, q, b) THEN @ ELSE TRUE]
+  /\ UNCHANGED <<nev, ev, q, unf, shut, hist, running, semv, depth, lockq, nact, nx, cur, o>>
+RLPollExit(b) ==  \* the poll was interrupted by the queue shutdown: step() returns None, idle check, the loop ends
+  /\ cur = NoTask /\ task[RL(b)].pc = "pollx"
+  /\ task' = [task EXCEPT ![RL(b)].pc = "dead"]
+  /\ idle' = [idle EXCEPT ![b] = IF BusyOn(ev, hist, q, b) THEN @ ELSE TRUE]
+  /\ UNCHANGED <<nev, ev, q, unf, shut, hist, running, semv, depth, lockq, nact, nx, cur, o>>
+RLTakeDying(b) == \* the queue hand-off that was in flight when the run loop was cancelled still happens (the event is lost with it)
+  /\ cur = NoTask /\ task[RL(b)].pc = "dyingt"
+  /\ q' = IF q[b] # <<>> THEN [q EXCEPT ![b] = Tail(@)] ELSE q
+  /\ task' = [task EXCEPT ![RL(b)].pc = "dying"]
+  /\ UNCHANGED <<nev, ev, unf, shut, hist, running, idle, semv, depth, lockq, nact, nx, cur, o>>
+RLDie(b) ==       \* a cancelled run loop runs its `finally`
+  /\ cur = NoTask /\ task[RL(b)].pc = "dying"
+  /\ task' = [task EXCEPT ![RL(b)].pc = "dead"]
+  /\ running' = [running EXCEPT ![b] = FALSE]
+  /\ UNCHANGED <<nev, ev, q, unf, shut, hist, idle, semv, depth, lockq, nact, nx, cur, o>>
+
 RLBegin(b) ==   \* the run-loop task resumes with the event: idle flag cleared, lock
-  /\ cur = NoTask /\ task[RL(b)].pc = "got"
+  /\ cur = NoTask /\ task[RL(b)].pc = "got" /\ running[b]
   /\ idle' = [idle EXCEPT ![b] = FALSE]
   /\ IF semv > 0 /\ lockq = <<>>
      THEN RLEnter(b, task, semv - 1, 1, lockq)
@@ -302,7 +329,7 @@ RLGranted(b) ==
 ParFrame(t) == t[1] # "x" /\ task[t].fe # 0 /\ IsParallel(Cfg, task[t].fb)
 OwnerNext(t) ==
   /\ task[t].fe # 0 /\ ~ParFrame(t)
-  /\ (cur = t /\ task[t].pc = "pb") \/ (cur = NoTask /\ task[t].pc = "mon")
+  /\ (cur = t /\ task[t].pc = "pb") \/ (cur = NoTask /\ task[t].pc = "mon" /\ ~task[t].canc)   \* a cancelled owner meets its cancellation at the monitor hop
   /\ task[t].todo # <<>>
   /\ LET h == Head(task[t].todo)  b == task[t].fb  e == task[t].fe IN
      IF h.kind = "fwd"
@@ -417,11 +444,11 @@ OwnerResume(t) ==
   /\ cur = NoTask /\ task[t].pc = "hdone"
   /\ LET b == task[t].fb  e == task[t].fe  a == task[t].fa
          out == task[HT(a)].out IN
-     IF out # "cancel"
+     IF out # "cancel" /\ ~task[t].canc
      THEN /\ ev' = [ev EXCEPT ![e] = IF out = "raise" THEN SetRes(@, task[t].fh, b, "error", "E:a" \o ToString(a), "none")
                                      ELSE SetRes(@, task[t].fh, b, "completed", "", "none")]
           /\ task' = [task EXCEPT ![t].pc = "mon"]
-     ELSE IF task[t].tout
+     ELSE IF task[t].tout /\ ~task[t].canc
      THEN \* this level's wait_for expired: TimeoutError result, pending results of the children cancelled, next handler goes on
           /\ ev' = CancelPending([ev EXCEPT ![e] = SetRes(@, task[t].fh, b, "error", "Timeout", "none")], e, {})
           /\ task' = [task EXCEPT ![t].pc = "mon", ![t].tout = FALSE]
@@ -432,14 +459,62 @@ OwnerResume(t) ==
 
 \* the interrupted owner's process_event is abandoned: no WAL line, no completion mark, no task_done (finding F5)
 OwnerAbandon(t) ==
-  /\ cur = NoTask /\ task[t].pc = "monx" /\ t[1] = "h"
+  /\ cur = NoTask /\ t[1] = "h" /\ (task[t].pc = "monx" \/ (task[t].pc = "mon" /\ task[t].canc))
   /\ o' = Obs(ProcLineX("ProcX", t, task[t].fb, task[t].fe, "Cancelled"), ev, nev, hist, q)
   /\ task' = [task EXCEPT ![t].pc = "cancelled", ![t].fe = 0, ![t].fb = "", ![t].fh = "", ![t].fa = 0, ![t].todo = <<>>]
   /\ UNCHANGED <<nev, ev, q, unf, shut, hist, running, idle, semv, depth, lockq, nact, nx, cur>>
 
-\* handler timeouts (A.9): wait_for expires while the innermost handler of the chain is in a timed sleep
 RECURSIVE Chain(_)
 Chain(a) == IF task[HT(a)].pc = "waith" /\ task[HT(a)].fa # 0 THEN <<a>> \o Chain(task[HT(a)].fa) ELSE <<a>>
+OwnerAbandonRL(b) ==   \* a cancelled run loop: process_event is abandoned (probe line ProcX) ...
+  /\ cur = NoTask /\ task[RL(b)].canc /\ task[RL(b)].pc \in {"monx", "mon"}
+  /\ LET t == RL(b) IN
+     /\ o' = Obs(ProcLineX("ProcX", t, task[t].fb, task[t].fe, "Cancelled"), ev, nev, hist, q)
+     /\ task' = [task EXCEPT ![t].pc = "dyingl", ![t].fe = 0, ![t].fb = "", ![t].fh = "", ![t].fa = 0, ![t].todo = <<>>]
+  /\ cur' = RL(b)
+  /\ UNCHANGED <<nev, ev, q, unf, shut, hist, running, idle, semv, depth, lockq, nact, nx>>
+RLDieLocked(b) ==      \* ... then step()'s `async with` leaves the lock and _run_loop's finally clears the running flag
+  /\ cur = RL(b) /\ task[RL(b)].pc = "dyingl"
+  /\ LET t == RL(b)
+         rel == IF depth - 1 = 0 THEN Release(task) ELSE [sem |-> semv, lq |-> lockq, T |-> task] IN
+     /\ task' = [rel.T EXCEPT ![t].pc = "dead", ![t].holds = FALSE]
+     /\ semv' = rel.sem /\ depth' = depth - 1 /\ lockq' = rel.lq
+     /\ running' = [running EXCEPT ![b] = FALSE]
+  /\ cur' = NoTask
+  /\ UNCHANGED <<nev, ev, q, unf, shut, hist, idle, nact, nx, o>>
+
+\* cancelling a run-loop task (stop() after its bounded wait, or asyncio.run() at exit): effect by where the task is suspended
+Suspended(a) == task[HT(a)].pc \in {"sleep", "yield", "spin"}
+CancelRLFx(b, T, LQ) ==
+  LET t == RL(b)  pc == T[t].pc IN
+  CASE pc \in {"none", "dead", "dying", "dyingt"} -> [T |-> T, lq |-> LQ, ok |-> TRUE]
+    [] pc = "new"                        -> [T |-> [T EXCEPT ![t].pc = "dead"], lq |-> LQ, ok |-> TRUE]        \* never runs, not even its finally
+    [] pc = "poll" /\ q[b] # <<>>        -> [T |-> [T EXCEPT ![t].pc = "dyingt"], lq |-> LQ, ok |-> TRUE]   \* the poll in flight still takes the head (and loses it)
+    [] pc \in {"poll", "pollx", "got"}   -> [T |-> [T EXCEPT ![t].pc = "dying"], lq |-> LQ, ok |-> TRUE]
+    [] pc = "lockwait"                   -> [T |-> [T EXCEPT ![t].pc = "dying"], lq |-> SelectSeq(LQ, LAMBDA x : x # t), ok |-> TRUE]
+    [] pc = "waith" /\ T[t].fa # 0      ->
+         LET ch == Chain(T[t].fa)  inner == Last(ch) IN
+         IF Suspended(inner)
+         THEN [T |-> [u \in Tasks |-> IF u = t THEN [T[u] EXCEPT !.canc = TRUE]
+                                      ELSE IF u[1] = "h" /\ InSeq(u[2], ch) THEN [T[u] EXCEPT !.canc = TRUE, !.pc = IF u[2] = inner THEN "cancelled" ELSE @]
+                                      ELSE T[u]], lq |-> LQ, ok |-> TRUE]
+         ELSE IF T[HT(inner)].pc = "new"
+         THEN \* the innermost handler task is cancelled before its first step: its code never runs, its owner is woken with the cancellation
+              [T |-> [u \in Tasks |-> IF u = t /\ T[HT(inner)].owner # t THEN [T[u] EXCEPT !.canc = TRUE]
+                                      ELSE IF u = T[HT(inner)].owner THEN [T[u] EXCEPT !.canc = TRUE, !.pc = "hdone"]
+                                      ELSE IF u = HT(inner) THEN [T[u] EXCEPT !.canc = TRUE, !.pc = "done", !.out = "cancel"]
+                                      ELSE IF u[1] = "h" /\ InSeq(u[2], ch) THEN [T[u] EXCEPT !.canc = TRUE]
+                                      ELSE T[u]], lq |-> LQ, ok |-> TRUE]
+         ELSE IF T[HT(inner)].pc \in {"hdone", "mon"}
+         THEN \* the innermost level is an inline owner about to resume: it meets the cancellation when it does
+              [T |-> [u \in Tasks |-> IF u = t THEN [T[u] EXCEPT !.canc = TRUE]
+                                      ELSE IF u[1] = "h" /\ InSeq(u[2], ch) THEN [T[u] EXCEPT !.canc = TRUE]
+                                      ELSE T[u]], lq |-> LQ, ok |-> TRUE]
+         ELSE [T |-> T, lq |-> LQ, ok |-> FALSE]
+    [] pc \in {"hdone", "mon"}           -> [T |-> [T EXCEPT ![t].canc = TRUE], lq |-> LQ, ok |-> TRUE]
+    [] OTHER                             -> [T |-> T, lq |-> LQ, ok |-> FALSE]      \* (granted / parallel frames: not modelled)
+
+\* handler timeouts (A.9): wait_for expires while the innermost handler of the chain is in a timed sleep
 TimeoutFire(t) ==
   /\ cur = NoTask /\ task[t].pc = "waith" /\ t[1] # "x" /\ task[t].fa # 0
   /\ ev[task[t].fe].ty \in TimeoutTypes
@@ -471,7 +546,7 @@ HCancelExit(a) ==
 XTasksOf(t) == {k \in 1..nx : task[XT(k)].owner = t /\ task[XT(k)].pc # "free"}
 OwnerTail(t) ==
   /\ task[t].fe # 0 /\ t[1] # "x"
-  /\ \/ (cur = t /\ task[t].pc = "pb") \/ (cur = NoTask /\ task[t].pc = "mon")
+  /\ \/ (cur = t /\ task[t].pc = "pb") \/ (cur = NoTask /\ task[t].pc = "mon" /\ ~task[t].canc)
      \/ (cur = NoTask /\ task[t].pc = "pwait" /\ \A k \in XTasksOf(t) : task[XT(k)].pc = "done")
   /\ task[t].todo = <<>>
   /\ LET b == task[t].fb  e == task[t].fe
@@ -493,7 +568,7 @@ OwnerEpilogue(t) ==
      /\ IF t[1] = "rl"
         THEN LET rel == IF depth - 1 = 0 THEN Release(task) ELSE [sem |-> semv, lq |-> lockq, T |-> task] IN
              /\ depth' = depth - 1 /\ semv' = rel.sem /\ lockq' = rel.lq
-             /\ task' = FreeX([rel.T EXCEPT ![t].pc = "poll", ![t].holds = (depth - 1 # 0), ![t].e = 0, ![t].fe = 0, ![t].fb = "", ![t].fh = "", ![t].fa = 0], t)
+             /\ task' = FreeX([rel.T EXCEPT ![t].pc = IF running[b] THEN "poll" ELSE "dead", ![t].holds = (depth - 1 # 0), ![t].e = 0, ![t].fe = 0, ![t].fb = "", ![t].fh = "", ![t].fa = 0], t)
              /\ idle' = [idle EXCEPT ![b] = IF BusyOn(ev, hist, q, b) THEN @ ELSE TRUE]
              /\ cur' = NoTask
         ELSE \* inline loop of BaseEvent.__await__: back in the loop, same stretch
@@ -570,7 +645,7 @@ InlineTake(a, b) ==
 \* can some other task take a step without time passing?  (1000 zero-sleeps exhaust all of those)
 ZeroTimeRunnable(t) ==
   \E u \in Tasks \ {t} :
-     \/ task[u].pc \in {"new", "got", "granted", "hdone", "mon", "monx", "cancelled", "yield", "spin", "xnew", "idle_yield"}
+     \/ task[u].pc \in {"new", "got", "granted", "hdone", "mon", "monx", "cancelled", "pollx", "dying", "dyingt", "yield", "spin", "xnew", "idle_yield"}
      \/ task[u].pc = "pwait" /\ \A k \in XTasksOf(u) : task[XT(k)].pc = "done"
      \/ u[1] = "rl" /\ task[u].pc = "poll" /\ q[u[2]] # <<>>
      \/ u[1] = "d" /\ task[u].pc = "xaw" /\ ev[task[u].aw].sig
@@ -643,7 +718,7 @@ DIdleBegin(i, b, timed) ==   \* timed: the call has a timeout argument; when it 
 DIdleStart(i) ==   \* wait_until_idle() begins with _start(); then it suspends in wait_for(queue.join())
   /\ cur = DT(i) /\ task[DT(i)].pc = "idle_start"
   /\ LET b == task[DT(i)].b
-         T1 == IF running[b] THEN task ELSE [task EXCEPT ![RL(b)] = [T0 EXCEPT !.pc = "new", !.b = b, !.born = Born + 1]] IN
+         T1 == IF running[b] \/ task[RL(b)].pc \notin {"none", "dead"} THEN task ELSE [task EXCEPT ![RL(b)] = [T0 EXCEPT !.pc = "new", !.b = b, !.born = Born + 1]] IN
      /\ task' = [T1 EXCEPT ![DT(i)].pc = "idle_join"]
      /\ running' = [running EXCEPT ![b] = TRUE]
   /\ cur' = NoTask
@@ -673,9 +748,50 @@ DIdleRecheck(i) ==
           /\ o' = Obs(Line("IdleE") @@ [d |-> i, b |-> b, exc |-> "", qn |-> Len(q[b])], ev, nev, hist, q)
   /\ UNCHANGED <<nev, ev, q, unf, shut, hist, running, semv, depth, lockq, nact, nx, cur>>
 
+\* stop(timeout = None / 0) (A.11) and cancellation of the bus's background task
+DStopBegin(i, b) ==
+  /\ WithStop /\ DRun(i)
+  /\ task' = [task EXCEPT ![DT(i)].bud = @ - 1, ![DT(i)].pc = "stop_go", ![DT(i)].b = b]
+  /\ cur' = DT(i)
+  /\ o' = Obs(Line("StopB") @@ [d |-> i, b |-> b, tmo |-> -1, running |-> running[b]], ev, nev, hist, q)
+  /\ UNCHANGED <<nev, ev, q, unf, shut, hist, running, idle, semv, depth, lockq, nact, nx>>
+StopELine(i, b) == Line("StopE") @@ [d |-> i, b |-> b, exc |-> ""]
+DStopGo(i) ==
+  /\ cur = DT(i) /\ task[DT(i)].pc = "stop_go"
+  /\ LET b == task[DT(i)].b IN
+     IF ~running[b]
+     THEN /\ task' = [task EXCEPT ![DT(i)].pc = "run", ![DT(i)].b = ""]
+          /\ o' = Obs(StopELine(i, b), ev, nev, hist, q)
+          /\ UNCHANGED <<running, shut, idle>>
+     ELSE \* flag down, queue shut down (a polling run loop is woken with QueueShutDown), then wait <= 0.1 s for the task
+          /\ running' = [running EXCEPT ![b] = FALSE] /\ shut' = [shut EXCEPT ![b] = TRUE]
+          /\ task' = [task EXCEPT ![DT(i)].pc = "stop_wait", ![RL(b)].pc = IF @ = "poll" /\ q[b] = <<>> THEN "pollx" ELSE @]   \* (a non-empty queue is still handed to the poll in flight)
+          /\ UNCHANGED <<idle, o>>
+  /\ cur' = NoTask
+  /\ UNCHANGED <<nev, ev, q, unf, hist, semv, depth, lockq, nact, nx>>
+DStopWaitEnd(i) ==    \* the run loop ended (at once) or 0.1 s passed: cancel it, drop the reference, set the idle flag, return
+  /\ cur = NoTask /\ task[DT(i)].pc = "stop_wait"
+  /\ LET b == task[DT(i)].b
+         c == CancelRLFx(b, task, lockq) IN
+     /\ c.ok
+     /\ task' = [c.T EXCEPT ![DT(i)].pc = "run", ![DT(i)].b = ""]
+     /\ lockq' = c.lq
+     /\ idle' = [idle EXCEPT ![b] = TRUE]
+     /\ o' = Obs(StopELine(i, b), ev, nev, hist, q)
+  /\ UNCHANGED <<nev, ev, q, unf, shut, hist, running, semv, depth, nact, nx, cur>>
+DCancelRL(i, b) ==    \* what asyncio.run() does to every pending task at exit
+  /\ WithStop /\ DRun(i)
+  /\ LET c == CancelRLFx(b, task, lockq) IN
+     /\ c.ok
+     /\ task' = [c.T EXCEPT ![DT(i)].bud = @ - 1]
+     /\ lockq' = c.lq
+  /\ o' = Obs(Line("CancelRL") @@ [d |-> i, b |-> b, had |-> task[RL(b)].pc \notin {"none", "dead"}], ev, nev, hist, q)
+  /\ UNCHANGED <<nev, ev, q, unf, shut, hist, running, idle, semv, depth, nact, nx, cur>>
+
 \* ------------------------------------------------------------------------
 NextCore ==
   \/ \E b \in B : RLStart(b) \/ RLTake(b) \/ RLPollIdle(b) \/ RLBegin(b) \/ RLGranted(b)
+  \/ \E b \in B : RLDrop(b) \/ RLPollExit(b) \/ RLDie(b) \/ RLShutExit(b) \/ OwnerAbandonRL(b) \/ RLDieLocked(b) \/ RLTakeDying(b)
   \/ \E t \in Tasks : SyncFinish(t, "ret") \/ SyncFinish(t, "raise") \/ SyncReturn(t) \/ (\E b \in B : \E ty \in Range(Types) : SyncDispatch(t, b, ty))
   \/ \E t \in Tasks : ParStart(t) \/ OwnerAbandon(t) \/ TimeoutFire(t)
   \/ \E a \in 1..MaxAct : HCancelAw(a) \/ HCancelExit(a)
@@ -688,7 +804,8 @@ NextCore ==
         \/ \E k \in 1..MaxEv : HAwaitBegin(a, k)
   \/ \E i \in 1..NDrv :
         \/ DAwaitEnd(i) \/ DIdleStart(i) \/ DIdleJoin(i) \/ DIdleFlag(i) \/ DIdleRecheck(i)
-        \/ DIdleTimeout(i)
+        \/ DIdleTimeout(i) \/ DStopGo(i) \/ DStopWaitEnd(i)
+        \/ \E b \in B : DStopBegin(i, b) \/ DCancelRL(i, b)
         \/ \E b \in B : DIdleBegin(i, b, FALSE) \/ \E ty \in Range(Types) : DDispatch(i, b, ty)
         \/ \E k \in 1..MaxEv : DAwaitBegin(i, k)
 
@@ -714,15 +831,18 @@ WitnessOf(p) == {w \in o.wit : \E c \in p : w.c = c}
 \* quiescence: no task can move (drivers out of budget count as finished)
 Quiescent ==
   /\ cur = NoTask
-  /\ \A b \in B : q[b] = <<>> /\ task[RL(b)].pc \in {"none", "poll"}
+  /\ \A b \in B : (q[b] = <<>> \/ shut[b]) /\ task[RL(b)].pc \in {"none", "poll", "dead"}
   /\ \A a \in 1..nact : task[HT(a)].pc = "done"
   /\ \A i \in 1..NDrv : task[DT(i)].pc = "run"
 EndLine ==
   Line("End") @@ [blocked |-> SetToSeq({[d |-> i, op |-> IF task[DT(i)].pc = "xaw" THEN "a" ELSE "idle"] : i \in {j \in 1..NDrv : task[DT(j)].pc # "run"}}),
-                  open |-> SetToSeq({a \in 1..nact : task[HT(a)].pc # "done"}), abort |-> "", failed |-> <<>>, crldone |-> <<>>, wal |-> <<>>]
+                  open |-> SetToSeq({a \in 1..nact : task[HT(a)].pc # "done"}), abort |-> "", failed |-> <<>>,
+                  crldone |-> SetToSeq({b \in B : task[RL(b)].pc \in {"none", "dead"}} \cup o.restart),   \* (a restarted bus: the model only restarts after the old task ended)
+                  wal |-> <<>>]
 EndWitnesses == StepCore(Cfg, o, o, EndLine).wit
 \* at every state where nothing can move any more, the end-of-execution clauses hold (modulo recorded findings)
 TerminalOK == (~ENABLED Next) => Unexplained(EndWitnesses) = {}
+DebugEnd == (~ENABLED Next) => (Unexplained(EndWitnesses) = {} \/ PrintT(<<"ENDW", Unexplained(EndWitnesses), EndLine.blocked, EndLine.open>>))
 QuiescentOK == Quiescent => Unexplained(EndWitnesses) = {}
 
 \* stuck: nobody can move but something is unfinished (a blocked waiter, an unfinished handler)
